@@ -660,6 +660,8 @@ class Exec:
     def raw_const(self, text):
         t = text.strip()
         m = re.match(r'^(.*)::(\w+)$', strip_generics(t))
+        if m and m.group(2).isupper() and len(getattr(self.ix, 'consts', {}).get(m.group(2), ())) == 1:
+            return next(iter(self.ix.consts[m.group(2)]))          # a named integer constant of the crate
         if m:
             # unit enum variant / unit struct constant like Option::<T>::None, Ordering::Less
             return self.mk_adt(t, [])
@@ -1050,8 +1052,13 @@ def explore(ex: Exec, harness, max_paths=10 ** 9):
 
 
 def load_index(mirfile, srcroot):
-    funcs = parse_dump(open(mirfile).read())
+    text = open(mirfile).read()
+    funcs = parse_dump(text)
     ix = FnIndex(funcs, srcroot)
+    # associated / module-level integer constants with a literal value: `const path::NAME: usize = const 8_usize;`
+    ix.consts = {}
+    for m in re.finditer(r'^const (\S.*?)::(\w+): [iu]\w+ = const (-?\d+)_[iu]\w+;', text, re.M):
+        ix.consts.setdefault(m.group(2), set()).add(int(m.group(3)))
     for root, _, files in os.walk(os.path.join(srcroot, 'src')):
         for fn in files:
             if not fn.endswith('.rs'):
